@@ -60,6 +60,8 @@ def describe(circuit):
         if g.gate_type.name == "INPUT":
             continue
         parts.append(f"{lab}={g.gate_type.name}({','.join(g.operands)})")
+    if len(parts) > 60:
+        parts = parts[:30] + [f"... ({len(parts) - 40} more gates) ..."] + parts[-10:]
     return f"in={list(circuit._inputs)} {' '.join(parts)} out={list(circuit._outputs)}"
 
 
